@@ -15,11 +15,13 @@ shared accesses, each preceded in the source by a scheduling point (`verif_hook:
 | `load`      | `repl.updating_load`   | `if !force && updating_epoch.load() >= epoch { return OldEpoch }`      |
 | `store`     | `repl.updating_store`  | `updating_epoch.store(epoch)`                                         |
 | `readLock`  | `repl.read_lock`       | under the read lock: collect the reusable replicators of the current map |
-| `writeLock` | `repl.write_lock`      | under the write lock: `if !force && epoch <= replicators.0 { updating_epoch.store(replicators.0); return OldEpoch }` else `*replicators = (epoch, new_replicators)` |
+| `writeLock` | `repl.write_lock`      | under the write lock: `if !force && epoch <= replicators.0 { updating_epoch.store(replicators.0); return OldEpoch }` else `*replicators = (epoch, new_replicators); updating_epoch.store(epoch)` |
 
 The write-locked section is one atomic step: `replicators` cannot change while the lock is held
-and the section performs at most one access to `updating_epoch` (the store), so the section is
-equivalent to executing all of it at that store (or at the assignment).  Everything between the
+and the section performs exactly one access to `updating_epoch` (a store, in either branch), so the
+section is equivalent to executing all of it at that store.  In particular the store that follows
+the install (fix be85753 of finding F05a; `Um.Gen.Meta.replInstallStoresUpdating`) has no scheduling
+point of its own: it is part of the `repl.write_lock` step.  Everything between the
 points is thread-local.  That these are the real atomic steps is checked schedule-for-schedule by
 the `umh_setrepl` harness (OS threads parked at the four points).
 
@@ -160,7 +162,7 @@ def act (u ie : Nat) (im : RMap) (c : Caller) : Option (Nat × Nat × RMap × Ca
                               reused := reuseOf (keySet c.msg.masters) (keySet c.msg.replicas) im })
   | .writeLock =>
     if !c.msg.force && lockRejects c.msg.epoch ie then some (ie, ie, im, { c with pc := .done .oldEpoch })
-    else some (u, c.msg.epoch, buildMap c.reused c.msg, { c with pc := .done .ok })
+    else some (c.msg.epoch, c.msg.epoch, buildMap c.reused c.msg, { c with pc := .done .ok })
   | .done _ => none
 
 inductive Label where
